@@ -50,7 +50,7 @@ def catalogue(K, thorough=False):
             S.GRP_BLOCKED(K), S.GRPBATCH(K), S.EMPTYBATCH(K), S.TWOSRC(K), S.GATE_NONE(K), S.DELAY01_LONG(0),
             S.MAINT2_SCRIPT(K), S.GRPIN(K), S.RES3(K), S.BLOCKED_OUT_SCRIPT(K), S.BUFGATE(K),
             S.BATCH_DIRECT(K, pattern=(2, 2, None), size=3, cap=3, sink_cycle=2),
-            S.BATCH(K, size=2, cap=6, sink_cycle=2), S.BLOCK_SCRIPT(K), S.BUDGET(K, budget=0)]
+            S.BATCH(K, size=2, cap=6, sink_cycle=2), S.BLOCK_SCRIPT(K), S.BUDGET(K, budget=0), S.BATCHSLOW(K), S.RES3L(K)]
     return rows
 
 
@@ -246,7 +246,7 @@ class C11(Check):
     def jobs(self, tier):
         K = 1 if tier == 'quick' else 2
         specs = [S.RES(K), S.RES(K, r=2, q=0), S.RES(K + 1, horizon=4), S.RES_SER(K), S.RES_SER(K + 1, horizon=4),
-                 S.RES2(K, horizon=5 if K == 1 else 4),
+                 S.RES2(K, horizon=5 if K == 1 else 4), S.RES3L(K),
                  S.GRP2(K, horizon=4, resources=True), S.GRPPAR(K, horizon=4, resources=True), S.RES_MAINT(K + 1)]
         return _line_jobs(specs, ['resources'], tier)
 
@@ -343,7 +343,7 @@ class C17(Check):
                 specs.append(S.BATCH_DIRECT(K, pattern=pat, size=size, cap=4 if size else None, sink_cycle=1 if size else 0))
         specs += [S.BUFBATCH(K), S.BUFBATCH(K, pattern=(3, 2), cap=4, size=2), S.BATCHGATE(K), S.GRPBATCH(K), S.EMPTYBATCH(K),
                   S.BATCH(K, size=2, cap=6, sink_cycle=2), S.BUFBATCH(K, pattern=(3, 3, None), cap=5, size=None, sink_cycle=2),
-                  S.EMPTYBATCH_SCRIPT(K)]
+                  S.EMPTYBATCH_SCRIPT(K), S.BATCHSLOW(K)]
         return _line_jobs(specs, ['batching', 'census', 'route'], tier) + \
             topo_jobs(['batching', 'census', 'route'], tier, kinds=('batcher',))
 
